@@ -196,7 +196,7 @@ func (g *Grammar) eval(n *Node, s *Sentence) string {
 			}
 			args[i] = vals[r.Index]
 		}
-		v := RenderNode(a.ID, a.Action.Ctx, args)
+		v := RenderNode(a.Label(), a.Action.Ctx, args)
 		s.Log = append(s.Log, v)
 		return v
 	}
